@@ -39,8 +39,11 @@ ASSUMPTIONS = [
     'as "an ElementPathError is raised", not for the exact code',
 ]
 FLOORS = {
-    'pair:expect-true': (0.20, 'pair'), 'pair:expect-false': (0.20, 'pair'), 'pair:nontrivial': (0.50, 'pair'),
-    'v:node': (0.10, 'judge'), 'v:func': (0.08, 'judge'), 'v:map-or-array': (0.08, 'judge'), 'v:seq': (0.15, 'judge'),
+    'judge:evaluated': (0.70, 'judge'), 'pair:judged': (0.70, 'pair'),
+    'pair:expect-true': (0.20, 'pair:judged'), 'pair:expect-false': (0.20, 'pair:judged'),
+    'pair:nontrivial': (0.50, 'pair:judged'),
+    'v:node': (0.10, 'judge:evaluated'), 'v:func': (0.08, 'judge:evaluated'), 'v:map-or-array': (0.08, 'judge:evaluated'),
+    'v:seq': (0.15, 'judge:evaluated'),
     't:function-typed': (0.04, 'pair'), 't:kind-args': (0.08, 'pair'), 't:blanks': (0.15, 'pair'),
     'sig:success': (0.30, 'sig:call'),
     'gen:premises-hold': (0.15, 'gen:triple'),
@@ -53,7 +56,7 @@ SIG_NS = dict(NS, fn='http://www.w3.org/2005/xpath-functions', output='http://ww
 # --------------------------------------------------------------------------
 # the fixed document and its nodes
 # --------------------------------------------------------------------------
-_XML = ('<a xmlns:p="urn:p" x="1" p:y="2">t0<b>tb</b><!--c--><?pi d?><p:c/><b/></a>')
+_XML = ('<a xmlns:p="urn:p" x="1" p:y="2">t0<b>tb</b><!--c--><?tgt d?><p:c/><b/></a>')
 
 
 def _node(kind, name=None, annot=None, children=None):
@@ -63,7 +66,7 @@ def _node(kind, name=None, annot=None, children=None):
 _EL_A = _node('element', 'a', 'xs:untyped')
 _EL_B = _node('element', 'b', 'xs:untyped')
 _EL_C = _node('element', '{urn:p}c', 'xs:untyped')
-_COMMENT, _PI, _TEXT = _node('comment'), _node('processing-instruction', 'pi'), _node('text')
+_COMMENT, _PI, _TEXT = _node('comment'), _node('processing-instruction', 'tgt'), _node('text')
 # (xpath, description); the lxml flavour has a comment and a PI next to the root element
 NODES = [
     ('(/)', None),                         # document: description depends on the flavour
@@ -90,7 +93,7 @@ def _build_et():
     b = ET.SubElement(a, 'b')
     b.text = 'tb'
     a.append(ET.Comment('c'))
-    a.append(ET.ProcessingInstruction('pi', 'd'))
+    a.append(ET.ProcessingInstruction('tgt', 'd'))
     ET.SubElement(a, '{urn:p}c')
     ET.SubElement(a, 'b')
     return ET.ElementTree(a)
@@ -154,7 +157,6 @@ ATOMS_10 = [a for a in ATOMS if a[1] != 'xs:dateTimeStamp']
 # map keys: pairwise distinct under op:same-key
 MAP_KEYS = [['A', 'xs:integer', '1'], ['A', 'xs:int', "xs:int('2')"], ['A', 'xs:string', "'a'"],
             ['A', 'xs:NCName', "xs:NCName('b')"], ['A', 'xs:date', "xs:date('2000-02-29')"],
-            ['A', 'xs:boolean', 'true()'], ['A', 'xs:untypedAtomic', "xs:untypedAtomic('u')"],
             ['A', 'xs:anyURI', "xs:anyURI('urn:x')"], ['A', 'xs:double', '5e-1'], ['A', 'xs:decimal', '1.5'],
             ['A', 'xs:QName', "xs:QName('q')"], ['A', 'xs:token', "xs:token('t')"], ['A', 'xs:unsignedByte', "xs:unsignedByte('9')"]]
 
@@ -316,7 +318,7 @@ def kind_item_type(draw, in_sig=False):
     if k == 3:
         return ['nsnode']
     if k == 4:
-        return ['pi', draw(st.sampled_from([None, 'pi', 'zz']))]
+        return ['pi', draw(st.sampled_from([None, 'tgt', 'zz']))]
     if k == 5:
         e = draw(st.sampled_from([None, ['element', None, None, False], ['element', 'a', None, False],
                                   ['element', 'b', None, False], ['element', 'a', 'xs:untyped', False]]))
@@ -332,14 +334,20 @@ def kind_item_type(draw, in_sig=False):
 
 
 def seq_type(depth=2, in_sig=False):
-    return st.one_of(st.just(['empty']) if depth < 2 else st.nothing(),
-                     st.tuples(item_type(depth, in_sig), _OCC).map(list),
-                     st.tuples(item_type(depth, in_sig), _OCC).map(list))
+    def fix(x):
+        it, occ, keep = x
+        if occ and it[0] == 'function' and it[1] is not None and not keep:
+            occ = ''        # (function(..) as T)* needs a parenthesized item type: keep that rare
+        return [it, occ]
+    typed = st.tuples(item_type(depth, in_sig), _OCC, st.integers(0, 9).map(lambda k: k == 0)).map(fix)
+    return st.one_of(st.just(['empty']) if depth < 2 else st.nothing(), typed, typed, typed, typed)
 
 
 @st.composite
 def item_type(draw, depth=2, in_sig=False):
     k = draw(st.integers(0, 19))
+    if k == 19 and draw(st.integers(0, 2)):
+        k = 0               # parenthesized item types: about 1.5 %
     if k < 7:
         return draw(atomic_item_type())
     if k < 12:
@@ -460,7 +468,10 @@ def sanitize(ast):
     """repair ASTs the mutators may have made ungrammatical (map key not atomic)"""
     if ast[0] == 'empty':
         return ast
-    return [_sanitize_item(ast[0]), ast[1]]
+    it = _sanitize_item(ast[0])
+    if ast[1] and it[0] == 'function' and it[1] is not None:
+        it = ['paren', it]
+    return [it, ast[1]]
 
 
 def _sanitize_item(it):
@@ -577,7 +588,7 @@ def near_item_types(d):
                     ['doc', ['element', 'b', None, False]], ['doc', ['element', 'a', 'xs:untyped', False]],
                     ['doc', ['element', None, 'xs:anyType', False]], ['node'], ['element', None, None, False]]
         if kind == 'processing-instruction':
-            return [['pi', None], ['pi', 'pi'], ['pi', 'zz'], ['node'], ['comment']]
+            return [['pi', None], ['pi', 'tgt'], ['pi', 'zz'], ['node'], ['comment']]
         return [{'text': ['text'], 'comment': ['comment'], 'namespace': ['nsnode']}[kind], ['node'], ['text'],
                 ['comment'], ['nsnode'], ['pi', None]]
     if k == 'func':
@@ -630,14 +641,10 @@ def type_string_for(draw, desc):
         else:
             occ = draw(st.sampled_from(['*', '+', '*', '+', '', '?']))
         ast = [it, occ]
-    elif c == 19:
-        # statically invalid names
-        it = draw(st.sampled_from([['atomic', 'xs:anyType'], ['atomic', 'xs:untyped'], ['atomic', 'xs:anySimpleType'],
-                                   ['atomic', 'xs:NMTOKENS'], ['atomic', 'xs:nosuch'], ['atomic', 'nosuch'],
-                                   ['element', None, 'xs:nosuch', False], ['attribute', 'x', 'xs:nosuch']]))
-        ast = [it, draw(_OCC)]
     else:
         ast = draw(seq_type(2))
+    if ast[0] != 'empty' and ast[1] and ast[0][0] == 'function' and ast[0][1] is not None and draw(st.integers(0, 7)):
+        ast = [ast[0], '']      # (function(..) as T)* needs a parenthesized item type: keep that rare
     ast = sanitize(ast)
     seed = draw(st.integers(0, 3)) and draw(st.integers(1, 2 ** 20))
     s = rs.render(ast, _lcg_ws(seed))
@@ -724,6 +731,175 @@ def _t_classes(ast):
     return out
 
 
+def ep_parse(parser, expr):
+    """None when elementpath parses expr, else ('err', code, exc) | ('esc', exc)"""
+    from elementpath import ElementPathError
+    try:
+        parser.parse(expr)
+        return None
+    except ElementPathError as e:
+        return ('err', _err_code(e), e)
+    except RecursionError:
+        raise
+    except Exception as e:   # noqa - reported as an escape
+        return ('esc', e)
+
+
+def _slug(obs) -> str:
+    """failure kind of a parse/evaluation failure: code + normalised message, or escape site"""
+    if obs[0] == 'esc':
+        return escape_bucket('C18', obs[1]).split('/', 2)[2]
+    msg = getattr(obs[2], 'message', None) or str(obs[2])
+    import re
+    msg = re.sub(r"'[^']*'|\"[^\"]*\"", 'X', msg)
+    msg = re.sub(r'[^A-Za-z0-9]+', '-', msg).strip('-').lower()[:48]
+    return f'{obs[1]}:{msg}'
+
+
+def type_children(ast):
+    """proper sub-sequence-types of a sequence type"""
+    if ast[0] == 'empty':
+        return []
+    it, occ = ast
+    out = [[it, '']] if occ else []
+    k = it[0]
+    if occ:
+        return out
+    if k == 'paren':
+        return [[it[1], '']]
+    if k == 'doc' and it[1] is not None:
+        return [[it[1], '']]
+    if k == 'function' and it[1] is not None:
+        return list(it[1]) + [it[2]]
+    if k == 'map' and it[1] is not None:
+        return [[it[1], ''], it[2]]
+    if k == 'array' and it[1] is not None:
+        return [it[1]]
+    return []
+
+
+_WRAP = {'instance': lambda t: f'() instance of {t}', 'signature': lambda t: 'function($a as %s) as %s { () }' % (t, t)}
+
+
+def shallow_class(ast) -> str:
+    """item kind with the kinds and occurrences of the direct children (for parse buckets)"""
+    if ast[0] == 'empty':
+        return 'empty-sequence()'
+    it, occ = ast
+    k = it[0]
+
+    def ck(a):
+        if a[0] == 'empty':
+            return 'empty'
+        x = rs.strip_paren(a[0])
+        return ('atomic' if x[0] == 'atomic' else 'kindtest' if x[0] in
+                ('node', 'text', 'comment', 'nsnode', 'pi', 'doc', 'element', 'attribute', 'item') else x[0]) + a[1]
+    if k == 'paren':
+        return '(' + ck([it[1], '']) + ')' + occ
+    if k in ('function', 'map', 'array') and it[1] is not None:
+        kids = type_children([it, ''])
+        if k == 'map':
+            kids = kids[1:]
+        if k == 'function':
+            inner = ','.join(sorted({ck(a) for a in it[1]})) + '->' + ck(it[2])
+        else:
+            inner = ','.join(ck(a) for a in kids)
+        return f'{k}({inner}){occ}'
+    return item_type_class(it) + occ
+
+
+def _construct(ast) -> str:
+    """syntactic construct of a sequence type for parse buckets: kind, presence of arguments, occurrence"""
+    if ast[0] == 'empty':
+        return 'empty-sequence()'
+    it, occ = ast
+    k = it[0]
+    if k == 'paren':
+        return '(...)'
+    if k in ('function', 'map', 'array'):
+        inner = '*' if it[1] is None else '...'
+        kids = [] if it[1] is None else type_children([it, ''])
+        if any(c[0] == 'empty' for c in kids):
+            inner = '..empty-sequence()..'
+        elif any(c[0] != 'empty' and c[1] for c in kids[(1 if k == 'map' else 0):]):
+            inner = '..T+*?..'
+        return f'{k}({inner})' + ('+*?' if occ else '')
+    if k == 'element':
+        return 'element(%s%s)' % ('N' if it[1] else '*' if it[2] else '', (',T?' if it[3] else ',T') if it[2] else '')
+    if k == 'attribute':
+        return 'attribute(%s%s)' % ('N' if it[1] else '*' if it[2] else '', ',T' if it[2] else '')
+    if k == 'atomic':
+        return 'atomic'
+    return item_type_class(it)
+
+
+def min_unparsable(parser, ast, wrap):
+    """smallest sub-sequence-type that elementpath refuses on its own (canonical spelling)"""
+    for ch in type_children(ast):
+        try:
+            rs.check_static(ch)
+        except rs.SeqTypeError:
+            continue
+        f = ep_parse(parser, wrap(rs.render(ch)))
+        if f is not None:
+            return min_unparsable(parser, ch, wrap)
+    return ast
+
+
+def parse_disc(parser, t, ast, failure, where='instance'):
+    """Disc for a sequence type that the grammar allows and elementpath does not parse"""
+    wrap = _WRAP[where]
+    canonical = rs.render(ast)
+    if t != canonical and ep_parse(parser, wrap(canonical)) is None:
+        return Disc(f'C18/parse/{where}/blanks/{_construct(ast)}/{_slug(failure)}', 'parses', repr(failure[-1])[:200], wrap(t))
+    m = min_unparsable(parser, ast, wrap)
+    if where == 'instance' and m[0] != 'empty' and m[0][0] == 'function' and m[0][1] is not None:
+        # every parameter/return type parses on its own: which one does the signature validation refuse?
+        for ch in type_children(m):
+            f2 = ep_parse(parser, _WRAP['signature'](rs.render(ch)))
+            if f2 is not None:
+                return parse_disc(parser, rs.render(ch), ch, f2, 'signature')
+    f = ep_parse(parser, wrap(rs.render(m))) or failure
+    return Disc(f'C18/parse/{where}/{_construct(m)}/{_slug(f)}', 'parses', repr(f[-1])[:200],
+                wrap(rs.render(m)) + ('   (inside %s)' % canonical if m != ast else ''))
+
+
+def _sig_types(v):
+    """all declared type strings of inline functions inside a JSON value"""
+    out = []
+    if v[0] == 'F':
+        out += list(v[1]) + [v[2]]
+    elif v[0] == 'S' or v[0] == 'R':
+        for x in v[1]:
+            out += _sig_types(x)
+    elif v[0] == 'M':
+        for kk, vv in v[1]:
+            out += _sig_types(vv)
+    return out
+
+
+def _label(ast) -> str:
+    """which evaluation path of instance of / treat as a type takes"""
+    if ast[0] == 'empty':
+        return 'empty-sequence'
+    return 'atomic' if rs.strip_paren(ast[0])[0] == 'atomic' else 'kind-test'
+
+
+def _ncls(n):
+    return '0' if n == 0 else '1' if n == 1 else 'n'
+
+
+def explain(desc, ast, nsmap):
+    """(cardinality ok, index of the first item that does not match the item type or None)"""
+    n = len(desc)
+    if ast[0] == 'empty':
+        return n == 0, (0 if n else None)
+    it, occ = ast
+    card = not (occ == '' and n != 1 or occ == '?' and n > 1 or occ == '+' and n < 1)
+    bad = next((i for i, x in enumerate(desc) if not rs.item_matches(x, it, nsmap)), None)
+    return card, bad
+
+
 def judge_judgement(case, rec: Recorder | None = None) -> list[Disc]:
     from elementpath.sequence_types import match_sequence_type
     from elementpath import ElementPathError
@@ -735,9 +911,19 @@ def judge_judgement(case, rec: Recorder | None = None) -> list[Disc]:
     vcls = value_class(desc)
     vexpr = render_value(v)
     item = nodes[case['ctx']] if case.get('ctx') is not None else None
+    if rec is not None:
+        rec.cls('judge')
     got = ep_eval(parser, vexpr, root, item)
     if got[0] != 'ok':
-        b = f'C18/setup/value-construction/{vcls}/' + (got[1] if got[0] == 'err' else type(got[1]).__name__)
+        # a declared type of an inline function that elementpath does not parse?
+        for ts in _sig_types(v):
+            f = ep_parse(parser, _WRAP['signature'](ts))
+            if f is not None:
+                where = 'signature' if ep_parse(parser, _WRAP['instance'](ts)) is None else 'instance'
+                if rec is not None:
+                    rec.cls('judge:value-unparsable-signature')
+                return [parse_disc(parser, ts, rs.parse(ts), f, where)]
+        b = f'C18/setup/value-construction/{vcls}/' + _slug(got)
         return [Disc(b, 'a value', repr(got[-1]), vexpr)]
     pyval = got[1]
     n_items = len(pyval) if isinstance(pyval, list) else 1
@@ -745,7 +931,7 @@ def judge_judgement(case, rec: Recorder | None = None) -> list[Disc]:
         return [Disc(f'C18/setup/value-length/{vcls}', len(desc), n_items, vexpr)]
 
     if rec is not None:
-        classes = ['judge', 'v:' + ('seq' if len(desc) > 1 else vcls)]
+        classes = ['judge:evaluated', 'v:' + ('seq' if len(desc) > 1 else vcls)]
         kinds = {d[0] for d in desc}
         if 'node' in kinds:
             classes.append('v:node')
@@ -760,35 +946,70 @@ def judge_judgement(case, rec: Recorder | None = None) -> list[Disc]:
 
     for t in case['ts']:
         ast = rs.parse(t)
-        tcls = type_class(ast)
         try:
             want = rs.matches(desc, ast, NS, xsd == '1.1')
         except rs.SeqTypeError as e:
             want = e.code
-        tag = f'{tcls}/{vcls}'
+        static = isinstance(want, str)
+        pclasses = ['pair'] + _t_classes(ast)
+        if t != rs.render(ast):
+            pclasses.append('t:blanks')
 
-        def verdict(obs, name, as_bool=True):
-            """compare an instance-of style observation with `want`; returns the failure kind or None"""
+        # 0. does elementpath accept the type at all?
+        pf = ep_parse(parser, _WRAP['instance'](t))
+        if pf is not None:
+            if static and pf[0] == 'err':
+                pclasses.append('pair:static-error-raised')
+            else:
+                discs.append(parse_disc(parser, t, ast, pf))
+                pclasses.append('pair:unparsable')
+            if rec is not None:
+                rec.case([flavour, v, rs.render(ast)], nontrivial=False, classes=pclasses)
+            continue
+
+        itcls = 'empty-sequence()' if ast[0] == 'empty' else item_type_class(ast[0])
+        occ = '' if ast[0] == 'empty' else ast[1]
+        if static:
+            card, bad = True, None
+        else:
+            card, bad = explain(desc, ast, NS)
+        if bad is not None:
+            offender = item_class(desc[bad])
+        elif not card:
+            offender = 'cardinality'
+        else:
+            offender = item_class(desc[0]) if desc else 'empty'
+        shape = f'[{occ or "1"},n={_ncls(len(desc))}]'
+
+        def verdict(obs):
+            """failure kind of an instance-of style observation, or None"""
             if obs[0] == 'esc':
-                return escape_bucket('C18', obs[1]).split('/', 2)[2]
-            if isinstance(want, str):
+                return _slug(obs)
+            if static:
                 return None if obs[0] == 'err' else 'no-static-error'
             if obs[0] == 'err':
-                return 'error:' + obs[1]
+                return 'error:' + _slug(obs)
             if obs[1] is not True and obs[1] is not False:
                 return 'not-boolean'
             if obs[1] != want:
-                return 'false-positive' if obs[1] else 'false-negative'
+                return ('false-positive' if obs[1] else 'false-negative') + shape
             return None
+
+        def bucket(obsname, kind, obs):
+            feats = {'obs': obsname, 'label': _label(ast), 'ast': ast, 'occ': occ, 'n': len(desc), 'card': card,
+                     'bad': bad, 'desc': desc, 'kind': kind, 'want': want, 'got': obs, 'itcls': itcls,
+                     'offender': offender}
+            return model_bucket(feats) or f'C18/{obsname}/{itcls}/{offender}/{kind}'
 
         # 1. (V) instance of T, inline and through a variable
         o_inl = ep_eval(parser, f'({vexpr}) instance of {t}', root, item)
         o_var = ep_eval(parser, f'$v instance of {t}', root, item, {'v': pyval})
-        k_inl, k_var = verdict(o_inl, 'instance'), verdict(o_var, 'instance-var')
+        k_inl, k_var = verdict(o_inl), verdict(o_var)
         if k_inl:
-            discs.append(Disc(f'C18/instance/{tag}/{k_inl}', want, _show(o_inl), f'({vexpr}) instance of {t}'))
+            discs.append(Disc(bucket('instance', k_inl, o_inl), want, _show(o_inl), f'({vexpr}) instance of {t}'))
         if k_var and k_var != k_inl:
-            discs.append(Disc(f'C18/instance-var/{tag}/{k_var}', want, _show(o_var), f'$v := {vexpr}; $v instance of {t}'))
+            discs.append(Disc(bucket('instance-var', k_var, o_var), want, _show(o_var),
+                              f'$v := {vexpr}; $v instance of {t}'))
 
         # 2. the API function
         try:
@@ -797,47 +1018,102 @@ def judge_judgement(case, rec: Recorder | None = None) -> list[Disc]:
             o_api = ('err', _err_code(e), e)
         except Exception as e:   # noqa - reported
             o_api = ('esc', e)
-        k_api = verdict(o_api, 'api')
+        k_api = verdict(o_api)
         if k_api:
-            discs.append(Disc(f'C18/api/{tag}/{k_api}', want, _show(o_api), f'match_sequence_type({vexpr}, {t!r})'))
+            discs.append(Disc(bucket('api', k_api, o_api), want, _show(o_api), f'match_sequence_type({vexpr}, {t!r})'))
 
-        # 3. treat as
-        if case.get('route') == 'inline':
-            texpr, tvars = f'({vexpr}) treat as {t}', None
+        # 3. treat as: judged against the reference; a verdict that merely repeats elementpath's own
+        #    (wrong) instance-of answer is the same root cause and already reported above
+        inline = case.get('route') == 'inline'
+        if inline:
+            texpr, tvars, o_ins = f'({vexpr}) treat as {t}', None, o_inl
         else:
-            texpr, tvars = f'$v treat as {t}', {'v': pyval}
+            texpr, tvars, o_ins = f'$v treat as {t}', {'v': pyval}, o_var
         o_tr = ep_eval(parser, texpr, root, item, tvars)
         k_tr = None
         if o_tr[0] == 'esc':
-            k_tr = escape_bucket('C18', o_tr[1]).split('/', 2)[2]
-        elif isinstance(want, str):
+            k_tr = _slug(o_tr)
+        elif static:
             k_tr = None if o_tr[0] == 'err' else 'no-static-error'
-        elif want:
-            if o_tr[0] == 'err':
-                k_tr = 'raises:' + o_tr[1]
-            elif tvars is not None and not _same_items(o_tr[1], pyval):
-                k_tr = 'value-changed'
-            elif tvars is None and (len(o_tr[1]) if isinstance(o_tr[1], list) else 1) != len(desc):
-                k_tr = 'value-changed'
         else:
-            if o_tr[0] == 'ok':
-                k_tr = 'no-error'
-            elif o_tr[1] != 'XPDY0050':
-                k_tr = 'wrong-code:' + o_tr[1]
+            accepted = o_tr[0] == 'ok'
+            same_as_instance = o_ins[0] == 'ok' and o_ins[1] is accepted and \
+                (accepted or o_tr[1] == 'XPDY0050')
+            if want and not accepted:
+                k_tr = None if same_as_instance else 'rejects-matching:' + o_tr[1]
+            elif not want and accepted:
+                k_tr = None if same_as_instance else 'accepts-nonmatching'
+            elif not want and o_tr[1] != 'XPDY0050':
+                k_tr = 'wrong-code:' + _slug(o_tr)
+            elif want:
+                res = o_tr[1]
+                if tvars is not None and not _same_items(res, pyval):
+                    k_tr = 'value-changed'
+                elif tvars is None and (len(res) if isinstance(res, list) else 1) != len(desc):
+                    k_tr = 'value-changed'
         if k_tr:
-            discs.append(Disc(f'C18/treat/{tag}/{k_tr}', 'XPDY0050' if want is False else want, _show(o_tr), texpr))
+            discs.append(Disc(f'C18/treat/{_label(ast)}/{k_tr}', 'XPDY0050' if want is False else want, _show(o_tr),
+                              texpr + (f'   with $v := {vexpr}' if tvars else '')))
 
         if rec is not None:
             nt = _nontrivial(desc, ast)
-            classes = ['pair'] + _t_classes(ast)
             if nt:
-                classes.append('pair:nontrivial')
-            classes.append('pair:expect-' + ('static-error' if isinstance(want, str) else str(want).lower()))
-            if t != rs.render(ast):
-                classes.append('t:blanks')
-            rec.case([flavour, v, rs.render(ast)], nontrivial=nt, classes=classes,
+                pclasses.append('pair:nontrivial')
+            pclasses.append('pair:expect-' + ('static-error' if static else str(want).lower()))
+            pclasses.append('pair:judged')
+            rec.case([flavour, v, rs.render(ast)], nontrivial=nt, classes=pclasses,
                      sample={'check': 'judge', 'v': vexpr, 't': t, 'expected': want})
     return discs
+
+
+def _inner_node_test(ast):
+    """the element/attribute test of a sequence type (also inside document-node()), or None"""
+    if ast[0] == 'empty':
+        return None
+    it = rs.strip_paren(ast[0])
+    if it[0] == 'doc' and it[1] is not None:
+        it = it[1]
+    return it if it[0] in ('element', 'attribute') else None
+
+
+def model_bucket(f):
+    """root-cause models of defects known on the pinned tree: a discrepancy that a model explains gets the
+    model's bucket (see proposed/C18/known.json); anything else keeps its fine-grained generic bucket"""
+    obs, kind, ast = f['obs'], f['kind'], f['ast']
+    fp, fn = kind.startswith('false-positive'), kind.startswith('false-negative')
+    it = None if ast[0] == 'empty' else rs.strip_paren(ast[0])
+    inst = obs in ('instance', 'instance-var')
+    offender = f['desc'][f['bad']] if f['bad'] is not None else None
+    nt = _inner_node_test(ast)
+    # M1 instance of <kind test>? / <kind test>*: the first item that fails the item type ends the loop with True
+    if inst and f['label'] == 'kind-test' and fp and f['occ'] in ('?', '*') and f['bad'] is not None:
+        return 'C18/instance/kind-test/nonmatching-item-accepted-under-?*'
+    # M2 type argument of element()/attribute() that is not an atomic type: lookup fails instead of derives-from
+    if nt is not None and nt[2] in rs.NON_ATOMIC and kind.startswith('error:'):
+        return f'C18/{obs}/node-test-type-argument/{nt[2]}/{kind}'
+    # M3 element(N, T): judged on the typed value of the element, not on its type annotation
+    if nt is not None and nt[0] == 'element' and nt[2] is not None and (fp or fn):
+        el = offender if fp else (f['desc'][0] if f['desc'] else None)
+        if el is not None and el[0] == 'node' and el[1] in ('element', 'document'):
+            return f'C18/{obs}/element-type-argument/{nt[2]}/' + ('false-positive' if fp else 'false-negative')
+    # M4 maps and arrays against a typed function test: judged on their entries, not on their signature
+    if it is not None and it[0] == 'function' and it[1] is not None and (fp or fn):
+        x = offender if fp else (f['desc'][0] if f['desc'] else None)
+        if x is not None and x[0] in ('map', 'array'):
+            return f'C18/{obs}/typed-function-test-on-{x[0]}/' + ('false-positive' if fp else 'false-negative')
+    # M5 typed function test on a function item: which component does elementpath's subtype relation judge
+    #    differently from XPath 3.1 2.5.6?  (unsound = accepts a non-subtype, incomplete = refuses a subtype)
+    if it is not None and it[0] == 'function' and it[1] is not None and (fp or fn):
+        x = offender if fp else (f['desc'][0] if f['desc'] else None)
+        if x is not None and x[0] == 'func' and len(x[1]) == len(it[1]):
+            from elementpath.sequence_types import is_sequence_type_restriction as R
+            comps = [(sp, ta) for sp, ta in zip(x[1], it[1])] + [(it[2], x[2])]      # (super, sub) pairs
+            for sup, sub in comps:
+                r_ep, r_ref = bool(R(rs.render(sup), rs.render(sub))), rs.subtype(sub, sup)
+                if r_ep != r_ref:
+                    how = 'unsound' if r_ep else 'incomplete'
+                    return f'C18/{obs}/typed-function-test/subtype-{how}/{pair_class(sup, sub)}'
+    return None
 
 
 def _show(obs):
@@ -859,7 +1135,7 @@ POOL_TYPES = [
     'xs:untypedAtomic', 'xs:untypedAtomic*', 'xs:anyURI', 'xs:QName', 'xs:boolean', 'xs:boolean?',
     'xs:date', 'xs:dateTime', 'xs:duration', 'xs:dayTimeDuration', 'xs:dayTimeDuration?', 'xs:hexBinary',
     'node()', 'node()?', 'node()*', 'node()+', 'text()', 'text()?', 'comment()', 'namespace-node()',
-    'processing-instruction()', 'processing-instruction(pi)', 'processing-instruction(zz)',
+    'processing-instruction()', 'processing-instruction(tgt)', 'processing-instruction(zz)',
     'document-node()', 'document-node()?', 'document-node(element(a))', 'document-node(element(*))', 'document-node(element(b))',
     'element()', 'element()?', 'element()*', 'element()+', 'element(*)', 'element(a)', 'element(a)?', 'element(a)*',
     'element(b)', 'element(p:c)', 'element(a, xs:untyped)', 'element(*, xs:untyped)', 'element(a, xs:anyType)',
@@ -1180,7 +1456,7 @@ def inhabit_item(draw, it, depth=2, strings=False):
     if k == 'element':
         if it[2] is not None:
             return None
-        idx = [i for i in ELEMENT_IDX if it[1] is None or rs.expand(it[1], NS) == NODES[i][1][2]]
+        idx = [i for i in ELEMENT_IDX if it[1] is None or rs.expand(it[1], SIG_NS) == NODES[i][1][2]]
         return ['N', draw(st.sampled_from(idx))] if idx else None
     if k == 'attribute':
         return ['N', draw(st.sampled_from(ATTR_IDX))] if it[1] is None and it[2] is None else None
